@@ -64,6 +64,17 @@ def gen_source(rng):
         else:
             extra.append(f'{k}  "$undefined{i} + 1";')
         nontrivial = True
+    if rng.random() < 0.3:
+        # a chain of expressions through the items of one list (each link needs one more evaluation pass);
+        # the number of passes can exceed the number of named variables
+        n = rng.randrange(3, 10)
+        step = rng.choice([0.5, 1, 2])
+        items = ["1.0"] + [f'"$chain[{i}] + {step}"' for i in range(n - 1)]
+        extra.append("chain  (" + " ".join(items) + ");")
+        extra.append(f"chainLast  $chain[{n - 1}];")
+        if rng.random() < 0.5:
+            extra.append('chainLen  "$chainLast - 1";')
+        nontrivial = True
     rng.shuffle(extra)
     pos = rng.randrange(0, len(lines) + 1) if lines else 0
     # keep statements at top level: insert only at depth 0 boundaries
